@@ -28,6 +28,20 @@ def main(argv):
         traceback.print_exc()
         ctx.report("%s:machinery" % pid, "check machinery failed: %s: %s" % (type(e).__name__, e),
                    dict(obligation="machinery", error=traceback.format_exc()[-2000:]), found_input=False)
+    if mode == "thorough" and not ctx.violations and os.environ.get("VERIF_COQCHK", "1") != "0" \
+            and "coqchk" not in ctx.cov:
+        # independent re-check of the compiled statements and everything they depend on
+        try:
+            rc, out = vlib.sh(["timeout", "1800", "coqchk", "-silent", "-o", "-Q", ".", "PT", "PT.Props." + pid],
+                              cwd=vlib.COQ, timeout=1900)
+            import re
+            m = re.search(r"\* Axioms:(.*?)\n\s*\n\* Constants", out, flags=re.S)
+            ctx.cov["coqchk"] = dict(rc=rc, axioms=" ".join(m.group(1).split()) if m else out[-300:])
+            if rc != 0:
+                ctx.report("%s:coqchk" % pid, "coqchk rejects Props/%s.vo: %s" % (pid, out[-400:]),
+                           dict(obligation="coqchk"), found_input=False)
+        except Exception as e:
+            ctx.note("coqchk did not run: %s" % e)
     return ctx.finish()
 
 
